@@ -1,12 +1,12 @@
 PROP = dict(
     id='C12', level='exploration',
-    pyvc=[],
-    finite=['finite.regex:sql_tokens', 'finite.lalr:sql_conflict_free'],
+    pyvc=['contracts.c12'],
+    finite=['finite.regex:sql_tokens', 'finite.lalr:sql_conflict_free', 'finite.frames:sql_rule_frames'],
     bounded='bounded.c12',
     bounded_budget=dict(quick=45, thorough=420),
     assumptions=[],
     trusted_base=['z3 5.1 / cvc5 1.0.3', 'pyvc symbolic executor and its encoding of Python (DESIGN.md section 2.3)', 'CPython 3.12, PLY 3.11 (A-PLY)'],
-    manifest=dict(text='Finite core (tier F, 15 obligations): no token regex of the loader is exponentially ambiguous; the SQL grammar has no unresolved conflict. Bounded: single-edit mutants of 6 seed texts at every token position, all token sequences of length <=3/4, tokens in 15 statement contexts, arbitrary strings, input histories; only the documented exceptions, bounded time, rejected text leaves the loader unchanged.',
+    manifest=dict(text='Deductive core (tier P, 6 obligations): ModelLoader.input appends exactly the statements of an accepted text, in order, and leaves `statements` as it was when the text is rejected (ParsingException), under the assumed contract of the parse() of PLY (A-PLY); that parse() does not touch the loader is discharged rule by rule: every p_*/t_* function of the loader neither writes nor leaks loader state and raises only ParsingException (tier F, 88 syntactic frame obligations on the current source). Finite core (tier F, 15 obligations): no token regex of the loader is exponentially ambiguous; the SQL grammar has no unresolved conflict. Bounded: single-edit mutants of 6 seed texts at every token position, all token sequences of length <=3/4, tokens in 15 statement contexts, arbitrary strings, input histories; only the documented exceptions, bounded time, rejected text leaves the loader unchanged.',
                   note='PLY raises from t_error/p_error and leaves the loader untouched (A-PLY).',
-                  technique='bounded stand-in (run-time contracts on the real functions driven by small-scope enumeration; labelled bounded, never counted as proved) decides the property sentence; finite-state obligations decided exactly on the LALR(1) table / token regular expressions regenerated from the current source, reported separately as tier F'),
+                  technique='bounded stand-in (run-time contracts on the real functions driven by small-scope enumeration; labelled bounded, never counted as proved) decides the property sentence; contract-based deductive verification (pyvc) of ModelLoader.input (a rejected text leaves the loader unchanged, an accepted one appends its statements) with per-rule syntactic frame obligations, reported separately as tier P/F; finite-state obligations decided exactly on the LALR(1) table / token regular expressions regenerated from the current source, reported separately as tier F'),
 )
